@@ -57,6 +57,7 @@ def run_case(job):
         write_text(gpath, gfa_text(nodes, links, variant), "gz" if gz else "plain")
         steps = [(o, n) for o in "><" for n in nodes]
         paths = [list(p) for kk in range(1, k + 1) for p in itertools.product(steps, repeat=kk)]
+        paths = paths + paths[::7][:5]        # a paths file may list a path more than once: one record per LINE
         g = GFA(gpath)
         res = []
         for p in paths:
